@@ -72,7 +72,7 @@ def gen_case(rng: Rng, i: int, tier: str):
     extra = rw.gen_header_extra(rng.sub("header_extra"), hdr, p=0.4)
     if extra:
         sess["header_extra"] = extra
-    wrong = r.pick(["different", "prefix", "case", "none", "suffix"])
+    wrong = r.pick(["different", "prefix", "case", "none", "suffix", "space", "strip"])
     case = {"session": sess, "knobs": knobs, "rng": r.randrange(1 << 30), "wrong": wrong, "open": r.pick(["stream", "path", "anon"])}
     if append:
         case["append"] = append
@@ -93,6 +93,10 @@ def _wrong_password(pw, kind):
         return pw[:-1] if len(pw) > 0 else "x"
     if kind == "suffix":
         return pw + "x"
+    if kind == "space":
+        return pw + " "
+    if kind == "strip":
+        return pw.strip() if pw.strip() != pw else " " + pw
     if kind == "case":
         sw = pw.swapcase()
         return sw if sw != pw else pw + "A"
